@@ -99,7 +99,7 @@ def run_case(case):
     V = judges.V
     kind, history = case['kind'], case['history']
     base = os.environ.get('PV_WORK') or None
-    workdir = tempfile.mkdtemp(prefix='c14-', dir=base)
+    workdir = tempfile.mkdtemp(prefix='c14-[a]?-', dir=base)
     obs = {'ops': {}, 'loads_compared': 0, 'loads_after_progress': 0, 'absent_loads': 0, 'overwrites': 0, 'pidkind': {kind: 1}}
     viol = []
     cls = programs.program_class(PROGRAM, CtxProg)
